@@ -25,14 +25,16 @@ def make(prop, quick, thorough, explanation, functions, outside, extra_bounds=No
         js = []
         for i, sc in enumerate(scenarios(ctx).values()):
             # the witness twin (non-vacuity: all threads can finish) costs as much as the query itself: in the quick tier only
-            # the first two scenarios of a property carry one, in the thorough tier all do
-            sc.witness = (i < 2) or ctx.tier == 'thorough'
+            # the first scenario of a property carries one, in the thorough tier all do
+            sc.witness = (i < 1) or ctx.tier == 'thorough'
             if sc.name in thorough:
                 sc.optional = True        # deep queries: a timeout / out-of-memory is reported as NO-VERDICT, never as success and never as a broken check
             js += e3.make_jobs(ctx, sc)
         multi = [sc for n, sc in scenarios(ctx).items() if not n.startswith(('e2_', 'af_', 'ns_'))]   # random schedules make sense for real interleaving scenarios only
         if multi:
             js.append(e3.smoke_job(ctx, multi[0]))
+        if prop in ('C02', 'C03', 'C07', 'C10'):
+            js.append(e3.tv_job(ctx))      # translation validation of seqcc against the real library (deterministic API script)
         return js
 
     def confirm(ctx, job, failure):
